@@ -1095,8 +1095,8 @@ def leg_short_write(r, flavour, n_cases):
         key = r.pick([b"sk", "clé".encode()])
         old = b"old value"
         new = G.data(r, r.pick([40, 3000])) + b"N"
-        fl = r.pick("sa")
-        victim_kind = r.pick(["write", "remove", "insert"])
+        # every (flavour, operation) pair in turn: the sync and the async appenders are separate code
+        fl, victim_kind = [(f_, v_) for v_ in ("write", "remove", "insert") for f_ in "sa"][ci % 6]
         setup = [w_oneshot("s", "sha256", b"other", b"other value"), w_oneshot("s", "sha256", key, old)]
         if victim_kind == "write":
             victim = w_oneshot(fl, "sha256", key, new)
